@@ -79,3 +79,20 @@ class Capture:
     def __exit__(self, *a):
         sys.stdout = self.old
         return False
+
+
+def failing_prelude():
+    """failing calls of every public entry point: the conversions made afterwards run in a process that has seen them"""
+    from glyles import Glycan
+    # the conversions below are made in a process that has already seen failing calls of every public entry point
+    from glyles import convert
+    for call in (lambda: Glycan("Glc6Ac").count_functional_groups("C(=O"), lambda: Glycan("Glc").count_functional_groups(["Ac", "xyz(("]),
+                 lambda: Glycan("xyz").count_functional_groups("Ac"), lambda: Glycan("Man(a1-4)").get_smiles(),
+                 lambda: Glycan("Glc").count("Man((", match_nodes=True), lambda: Glycan("GlcS6").count_protonation(True),
+                 lambda: Glycan("Glc(a1-9)Glc").get_smiles(), lambda: Glycan("Glc7S", full=False).summary(),
+                 lambda: convert("Glc#", returning=True), lambda: convert(glycan_file="/nonexistent/x.txt", returning=True),
+                 lambda: Glycan("Glc", root_orientation="x").get_smiles(), lambda: Glycan("Glc", start="q").get_smiles()):
+        try:
+            call()
+        except BaseException:
+            pass
